@@ -13,7 +13,7 @@ func init() {
 	register(&Def{
 		ID:    "C01",
 		Level: "exploration",
-		Rule: "all 169 (source element type, destination element type) pairs x {Write, Read, WriteStriped, ReadStriped, write-then-read round trips across the interleaved and striped forms} x window shapes (channel counts 1..8,13,64; parent 0..40 frames; window at start/interior/end/empty, with and without spare capacity; non-frame-aligned lengths for the interleaved forms) x input lengths {0,1,n-1,n,n+1,2n+3} / per-channel slices {nil, empty, uneven, over-long}; values are boundary-dense + seeded integers exactly representable in both types (fractions and +-Inf for float<->float); " +
+		Rule: "all 169 (source element type, destination element type) pairs over the built-in types plus 7 pairs over named element types x {Write, Read, WriteStriped, ReadStriped, write-then-read round trips across the interleaved and striped forms} x window shapes (channel counts 1..8,13,64; parent 0..40 frames; window at start/interior/end/empty, with and without spare capacity; non-frame-aligned lengths for the interleaved forms) x input lengths {0,1,n-1,n,n+1,2n+3} / per-channel slices {nil, empty, uneven, over-long}; values are boundary-dense + seeded integers exactly representable in both types (fractions and +-Inf for float<->float); " +
 			"each call runs against a canary arena re-read over the whole parent capacity through the hook, with sentinel-filled caller slices; distinct = distinct (function, pair, shape, input lengths) tuples; non-trivial = at least one sample is transferred",
 		Assume: []string{"striped forms only on frame-aligned buffers (as the property states)", "positions computed by the oracle as C*i+c, counts as integer ceil(n/C)"},
 		Plan:   func(tier string) []Batch { return split("pairs", 13, 1200) },
@@ -156,7 +156,22 @@ func runC01(c *core.Ctx) {
 			c.Obs("pairs_executed", 1)
 		}
 	}
-	c.Floor("pairs_executed", 169)
+	for xi, p := range dyn.ExtraPairs {
+		pi++
+		if !c.Mine(pi) {
+			continue
+		}
+		r := c.Rand(uint64(pi))
+		for si, sh := range c01Shapes(c, r, c.Pick(8, 1000)) {
+			caseID := fmt.Sprintf("x%d-%s-%s/s%d", xi, p.A.Name, p.B.Name, si)
+			if c.Want(caseID) {
+				c01Case(c, p, sh, r, caseID)
+			}
+		}
+		c.Obs("pairs_executed", 1)
+		c.Obs("named_type_pairs_executed", 1)
+	}
+	c.Floor("pairs_executed", 169+int64(len(dyn.ExtraPairs)))
 	c.Floor("partial_last_frame_counts", 20)
 	c.Floor("input_longer_than_buffer", 100)
 	c.Floor("input_shorter_than_buffer", 100)
@@ -411,8 +426,8 @@ func c01Case(c *core.Ctx, p *dyn.PairOps, sh c01shape, r *core.Rand, caseID stri
 		c01Common(c, "ReadStriped"+pairName, caseID, d, a, w, before, got, wantRet, sp)
 	}
 	// ---------------- round trips across the forms (A -> B -> A)
-	if length > 0 {
-		back := dyn.Pairs[B.ID][A.ID]
+	back := reversePair(A, B)
+	if length > 0 && back != nil {
 		a := mon.NewArena(B, sh.ch, sh.k, 77)
 		w := a.Window(sh.s, sh.e, 0, 0)
 		n := w.B.Len()
@@ -456,6 +471,22 @@ func c01Case(c *core.Ctx, p *dyn.PairOps, sh c01shape, r *core.Rand, caseID stri
 		}
 		c.Obs("round_trips", 2)
 	}
+}
+
+// reversePair finds the transfer functions from element type b back to a.
+func reversePair(a, b *dyn.TypeOps) *dyn.PairOps {
+	if a.ID < dyn.NBuiltin && b.ID < dyn.NBuiltin {
+		return dyn.Pairs[b.ID][a.ID]
+	}
+	if a == b {
+		return a.SelfPair
+	}
+	for _, p := range dyn.ExtraPairs {
+		if p.A == b && p.B == a {
+			return p
+		}
+	}
+	return nil
 }
 
 func c01Lens(c *core.Ctx, il, winLen, n, ch int) {
